@@ -44,6 +44,8 @@ def placements(case, g):
         dp = 'export_to = "%s"' % c03.EXPR_PLACES[case["dplace"]]
     if case["dplace"] == "same_as_root" or case["rplace"] == "same_as_dep":
         dp = rp = '#[ts(export_to = "both§.ts")]'
+    if case["dplace"] == "same_as_root_mts":
+        dp = rp = '#[ts(export_to = "both§.mts")]'
     if case["dplace"] == "same_dotdot":
         dp, rp = '#[ts(export_to = "sub§/../both§.ts")]', '#[ts(export_to = "both§.ts")]'
     return et_of(dp, g), et_of(rp, g)
